@@ -130,18 +130,33 @@ inductive Res (α : Type)
   | stuck
   deriving Inhabited
 
-/-- `TypeChecker::occurs` (fuel: nesting depth) -/
-def occurs (s : Store) (v : Nat) : Nat → MTy → Bool
-  | 0, _ => true
+/-- `any` over a list of three-valued answers, left to right, stopping at the
+    first `true` (as `Iterator::any` does); `none` = that call does not return -/
+def anyM {α : Type} (f : α → Option Bool) : List α → Option Bool
+  | [] => some false
+  | x :: xs => match f x with
+    | none => none
+    | some true => some true
+    | some false => anyM f xs
+
+/-- `TypeChecker::occurs`. `none`: out of fuel — the real function does not
+    return (a cyclic record type makes it recurse until the stack overflows). -/
+def occurs (s : Store) (v : Nat) : Nat → MTy → Option Bool
+  | 0, _ => none
   | fuel + 1, t =>
     match resolve s t with
-    | none => true
-    | some (.var x) | some (.intVar x _) | some (.floatVar x) => x == v
-    | some (.recordVar x fs) => x == v || fs.any fun f => occurs s v fuel f.2
-    | some (.record fs) => fs.any fun f => occurs s v fuel f.2
-    | some (.func ps r) => ps.any (occurs s v fuel) || occurs s v fuel r
-    | some (.name _ args) => args.any (occurs s v fuel)
-    | some (.explicitVar _) | some .unit | some .never => false
+    | none => none
+    | some (.var x) | some (.intVar x _) | some (.floatVar x) => some (x == v)
+    | some (.recordVar x fs) =>
+      if x == v then some true else anyM (fun f => occurs s v fuel f.2) fs
+    | some (.record fs) => anyM (fun f => occurs s v fuel f.2) fs
+    | some (.func ps r) =>
+      match anyM (occurs s v fuel) ps with
+      | none => none
+      | some true => some true
+      | some false => occurs s v fuel r
+    | some (.name _ args) => anyM (occurs s v fuel) args
+    | some (.explicitVar _) | some .unit | some .never => some false
 
 /-- position of the first field called `n` and the list without it
     (`b_fields.iter().position(..)` + `remove`) -/
@@ -190,8 +205,16 @@ def planArms (d : Defs) (s : Store) (occFuel : Nat) : MTy → MTy → Plan
     if C07Facts.floatVarRejectsArgs && !args.isEmpty then .fail
     else if !d.eval C07Facts.floatVarPred n then .fail
     else .bind v (.name n args)
-  | .var v, t => if occurs s v occFuel t then .fail else .bind v t
-  | t, .var v => if occurs s v occFuel t then .fail else .bind v t
+  | .var v, t =>
+    match occurs s v occFuel t with
+    | none => .stuck
+    | some true => .fail
+    | some false => .bind v t
+  | t, .var v =>
+    match occurs s v occFuel t with
+    | none => .stuck
+    | some true => .fail
+    | some false => .bind v t
   | .recordVar av afs, .recordVar bv bfs => .fieldsThenBind afs bfs av (.recordVar bv bfs)
   | .recordVar av afs, .record bfs => .fieldsThenBind afs bfs av (.record bfs)
   | .record afs, .recordVar bv bfs => .fieldsThenBind afs bfs bv (.record afs)
